@@ -47,7 +47,8 @@ def queries(tier, seed=0):
                 b = None
                 if ex is not None:
                     b = (len(sz) + 1 + ex[0], max(sz) + ex[1])
-                qs.append(dict(kind='layout', shape=Shape(sz, S, O, P, b).to_json()))
+                qs.append(dict(kind='layout', shape=Shape(sz, S, O, P, b).to_json(),
+                               host_order='reversed' if (len(sz) + S) % 2 else None))
     return qs
 
 
@@ -86,7 +87,7 @@ def run(src, q):
             HV.address_space_bounds = None
         return r
     shape = Shape.from_json(q['shape'])
-    w = scen.build_world(src, shape)
+    w = scen.build_world(src, shape, host_order=q.get('host_order'))
     r.w = w
     net = m_net.Network(w.scenario)
     with stubs.sut():
@@ -117,6 +118,13 @@ def run(src, q):
         r.oreadable = oback.get_readable()
         r.oprops = [sx.zbool(oback.success), sx.zbool(oback.connection_error),
                     sx.zbool(oback.permission_error), sx.zbool(oback.undefined_error)]
+        # masked host rows: each feature group of HostVector.observe() lands in its documented block
+        hv0 = state.get_host(w.addrs[0])
+        r.masked = {}
+        for flag in ('address', 'compromised', 'reachable', 'discovered', 'access', 'value',
+                     'discovery_value', 'services', 'processes', 'os'):
+            o_ = hv0.observe(**{flag: True})
+            r.masked[flag] = [sx.znum(c) for c in (o_.cells() if isinstance(o_, npmodel.SArray) else o_)]
     return r
 
 
@@ -208,6 +216,15 @@ def obligations(r):
             z3.BoolVal(tuple(int(x) for x in ord_['Address']) == a),
             _eq(ord_['Value'], w.val[a]),
             *[sx.zbool(ord_[s]) == sx.zbool(w.srv[a][s]) for s in w.services])))
+    row0 = r.rows[w.scenario.host_num_map[w.addrs[0]]]
+    blocks = dict(address=list(range(0, L['A0'] + L['A1'])), compromised=[L['comp']], reachable=[L['reach']],
+                  discovered=[L['disc']], access=[L['acc']], value=[L['value']], discovery_value=[L['dvalue']],
+                  os=list(range(L['os'], L['os'] + w.shape.O)), services=list(range(L['srv'], L['srv'] + w.shape.S)),
+                  processes=list(range(L['prc'], L['prc'] + w.shape.P)))
+    for flag, cells in r.masked.items():
+        ok = [(_eq(c, row0[j]) if j in blocks[flag] else c == 0) for j, c in enumerate(cells)] \
+            if len(cells) == L['size'] else [z3.BoolVal(False)]
+        obl.append(('observe_%s_fills_its_documented_block_only' % flag, z3.And(ok)))
     flat_rows = [c for row in r.rows for c in row]
     obl.append(('numpy_flat_is_row_major', z3.And([_eq(x, y) for x, y in zip(r.flat, flat_rows)])
                 if len(r.flat) == len(flat_rows) and r.flat_shape == (nh * L['size'],) else z3.BoolVal(False)))
